@@ -480,7 +480,11 @@ func runC10(c *Ctx) {
 		found := false
 		if opk := p.ByPath[pkgOtelcol]; opk != nil {
 			for _, fn := range p.AllSrcFuncs(opk) {
-				st := callsNamed(fn, func(f *types.Func) bool { return isMethod(f, pkgService, "Service", "Start") })
+				if tf, ok := fn.Object().(*types.Func); ok && fn.Object() != nil && isServiceStartFn(p, tf) {
+					// the collector's own wrapper around service.Start: its caller is judged
+					continue
+				}
+				st := callsNamed(fn, func(f *types.Func) bool { return isServiceStartFn(p, f) })
 				if len(st) != 1 {
 					continue
 				}
